@@ -23,8 +23,8 @@ VERIF = os.path.dirname(os.path.dirname(os.path.abspath(__file__)))
 BUILD = os.path.join(VERIF, 'build')
 
 PROOF_FAIL = [
-    ('postcondition', re.compile(r'postcondition not satisfied')),
-    ('precondition', re.compile(r'precondition not satisfied')),
+    ('postcondition', re.compile(r'postcondition not satisfied|unable to prove post-condition of closure')),
+    ('precondition', re.compile(r'precondition not satisfied|unable to prove pre-condition of closure')),
     ('invariant', re.compile(r'invariant not satisfied')),
     ('assertion', re.compile(r'assertion failed|assertion failure')),
     ('overflow', re.compile(r'possible arithmetic (underflow|overflow)|possible division by zero|'
